@@ -80,8 +80,11 @@ def reference_ke_scenarios(V, seed, tag):
             op = Watch(dt=0.5, max_steps=3)
             mv = HamiltonianDisplacementMove(distribution=dist, operation=op)
             c.last_results = {}
-            mv(c)
             V.case({"seed": s, "reference_ke": variant})
+            try:
+                mv(c)
+            except Exception as e:  # noqa: BLE001
+                V.add(tag + ":raises", {"seed": s, "variant": variant}, repr(e)); continue
             if abs(c.last_kinetic_energy - op.seen_ke) > 1e-12 * max(1.0, abs(op.seen_ke)):
                 V.add(tag, {"seed": s, "variant": variant}, f"context has {c.last_kinetic_energy}, the atoms start the trajectory with {op.seen_ke}")
 
